@@ -47,6 +47,7 @@ const basePrelude = `
 (declare-fun inner.p (Int) Int)
 (declare-fun inner.k (Int) Int)
 (assert (forall ((r Int) (k Int)) (! (and (= (inner.p (inner r k)) r) (= (inner.k (inner r k)) k) (< (inner r k) 0)) :pattern ((inner r k)))))
+(define-fun owner ((r Int)) Int (ite (< r 0) (ite (< (inner.p r) 0) (inner.p (inner.p r)) (inner.p r)) r))
 (declare-fun eptr (Int Int) Int)
 (declare-fun eptr.a (Int) Int)
 (declare-fun eptr.i (Int) Int)
